@@ -265,6 +265,15 @@ def misc_factory(quick, seed):
         ("kwargs are passed through", lambda: ag.grad(lambda x, p=1.0: p * x * x)(3.0, p=2.0), 12.0),
         ("extra positional arguments are passed through", lambda: ag.grad(lambda a, x, b: a * x * x * b, 1)(2.0, 3.0, 0.5), 6.0),
         ("jacobian of scalar->scalar has shape ()", lambda: onp.shape(ag.jacobian(lambda x: x * x)(3.0)), ()),
+        ("outer jacobian through the aux value of grad_and_aux", lambda: ag.jacobian(lambda x: ag.grad_and_aux(lambda y: (np.sum(y ** 2), 3.0 * y * y))(x)[1])(onp.array([1.0, 2.0])),
+         onp.diag([6.0, 12.0])),
+        ("outer grad through gradient times aux", lambda: ag.grad(lambda x: (lambda ga: np.sum(ga[0] * ga[1]))(ag.grad_and_aux(lambda y: (np.sum(y ** 2), 3.0 * y * y))(x)))(onp.array([1.0, 2.0])),
+         onp.array([18.0, 72.0])),
+        ("outer grad through the value of value_and_grad", lambda: ag.grad(lambda x: ag.value_and_grad(lambda y: np.sum(y ** 3))(x)[0])(onp.array([1.0, 2.0])), onp.array([3.0, 12.0])),
+        ("outer grad through the primal of make_vjp", lambda: ag.grad(lambda x: np.sum(ag.make_vjp(lambda y: y ** 3)(x)[1]))(onp.array([1.0, 2.0])), onp.array([3.0, 12.0])),
+        ("outer grad through the primal of make_jvp", lambda: ag.grad(lambda x: np.sum(ag.make_jvp(lambda y: y ** 3)(x)(onp.ones(2))[0]))(onp.array([1.0, 2.0])), onp.array([3.0, 12.0])),
+        ("outer deriv through the aux value of grad_and_aux", lambda: ag.deriv(lambda x: ag.grad_and_aux(lambda y: (y ** 2, 5.0 * y ** 3))(x)[1])(2.0), 60.0),
+        ("outer grad through make_hvp's gradient value", lambda: ag.grad(lambda x: np.sum(ag.make_hvp(lambda y: np.sum(y ** 3))(x)[1]))(onp.array([1.0, 2.0])), onp.array([6.0, 12.0])),
         ("hessian symmetric", lambda: (lambda Hm: float(onp.max(onp.abs(Hm - Hm.T))))(ag.hessian(lambda x: np.sum(np.sin(x) * x[::-1]))(onp.array([0.3, 0.7, 1.1]))), 0.0),
     ]
 
